@@ -252,7 +252,7 @@ def gamma_cases(draw, max_leaves):
 @st.composite
 def ns_modes(draw):
     """What else lives in the namespace of the tree(s) of a case."""
-    mode = draw(st.sampled_from(["exact", "exact", "extra", "pruned", "shared"]))
+    mode = draw(st.sampled_from(["exact", "extra", "pruned", "shared", "extra", "pruned"]))
     if mode == "exact":
         return {"mode": "exact"}
     return {"mode": mode, "k": draw(st.integers(1, 4)), "extras_first": draw(st.booleans()),
